@@ -34,7 +34,7 @@
  *         not contain any 12-byte piece of the secret at that moment.
  *
  * --deep (given by ./check to the thorough tier only; implies the thorough alphabets): hash <= 6 updates from the 9
- * lengths; aes 16 keys, 0..5 encryptions; aesctr <= 6 operations from {stream(1|15|16|17|31|32|33|40|100 bytes),
+ * lengths; aes 16 keys, 0..5 encryptions; aesctr <= 6 operations from {stream(1|15|16|17|31|32|33|40|64|100 bytes),
  * init2(NULL, nonce'), init2(key', nonce'')}; dh 14 private x 10 blinding (+ entropy failure) x 6 peer values and every
  * single OpenSSL allocation failure for every private value x {r#0, r = x, r#1, entropy failure} x 3 ops; keys: files of
  * <= 7 lines.  Replay records carry "deep":1 because the aesctr/dh indices then refer to the larger alphabets.
@@ -475,7 +475,7 @@ unit_aes(uint64_t u)
 /* ===================================================================== AES-CTR */
 static const int STREAMLEN_Q[] = { 1, 15, 16, 17, 40 };
 static const int STREAMLEN_T[] = { 1, 15, 16, 17, 32, 40, 100 };
-static const int STREAMLEN_D[] = { 1, 15, 16, 17, 31, 32, 33, 40, 100 };
+static const int STREAMLEN_D[] = { 1, 15, 16, 17, 31, 32, 33, 40, 64, 100 };
 static int nstream(void) { return deep ? NEL(STREAMLEN_D) : vf_tier ? NEL(STREAMLEN_T) : NEL(STREAMLEN_Q); }
 static int streamlen(int i) { return (deep ? STREAMLEN_D : vf_tier ? STREAMLEN_T : STREAMLEN_Q)[i]; }
 static int nctrops(void) { return nstream() + 2; }
